@@ -2919,6 +2919,166 @@ def _merge_nested_ifs(fn: ast.FunctionDef) -> bool:
     return changed
 
 
+def _dissolve_name_bundles(fn: ast.FunctionDef) -> bool:
+    """N43: a local bound once to a literal tuple / list of plain names that are themselves never re-bound afterwards
+    (`new_arrays = (x_new, y_new, mp_new)`) stands for that tuple where it is iterated (`for v in B`, `zip(B, ...)`) or
+    indexed with a literal (`B[0]`); `for a, b in zip((p, q), (x, y))` over literal tuples of equal length is the body once
+    per position.  A bundle that is used in no other way disappears."""
+    changed = False
+    stores: Dict[str, int] = {}
+    for n in ast.walk(fn):
+        if isinstance(n, ast.Name) and isinstance(n.ctx, (ast.Store, ast.Del)):
+            stores[n.id] = stores.get(n.id, 0) + 1
+    params = _fn_params(fn)
+    bundles: Dict[str, ast.Assign] = {}
+    for n in ast.walk(fn):
+        if isinstance(n, ast.Assign) and len(n.targets) == 1 and isinstance(n.targets[0], ast.Name) \
+                and isinstance(n.value, (ast.Tuple, ast.List)) and 1 <= len(n.value.elts) <= 4 \
+                and all(isinstance(e, ast.Name) for e in n.value.elts) and stores.get(n.targets[0].id) == 1 \
+                and n.targets[0].id not in params \
+                and all((stores.get(e.id, 0) <= 1 and e.id not in params) or (stores.get(e.id, 0) == 0 and e.id in params)
+                        for e in n.value.elts):
+            bundles[n.targets[0].id] = n
+    par: Dict[int, ast.AST] = {}
+    for n in ast.walk(fn):
+        for c in ast.iter_child_nodes(n):
+            par[id(c)] = n
+
+    def lit(name):
+        return copy.deepcopy(bundles[name].value)
+    for n in list(ast.walk(fn)):
+        if isinstance(n, ast.Name) and n.id in bundles and isinstance(n.ctx, ast.Load):
+            p = par.get(id(n))
+            if isinstance(p, ast.For) and p.iter is n:
+                p.iter = lit(n.id)
+                changed = True
+            elif isinstance(p, ast.Call) and isinstance(p.func, ast.Name) and p.func.id == 'zip' and n in p.args:
+                p.args[p.args.index(n)] = lit(n.id)
+                changed = True
+            elif isinstance(p, ast.Subscript) and p.value is n and isinstance(p.slice, ast.Constant) and isinstance(p.slice.value, int) \
+                    and not isinstance(p.slice.value, bool) and -len(bundles[n.id].value.elts) <= p.slice.value < len(bundles[n.id].value.elts) \
+                    and isinstance(p.ctx, ast.Load):
+                new = ast.Name(id=bundles[n.id].value.elts[p.slice.value].id, ctx=ast.Load())
+                pp = par.get(id(p))
+                for fld, val in ast.iter_fields(pp):
+                    if val is p:
+                        setattr(pp, fld, new)
+                    elif isinstance(val, list):
+                        for i_, v_ in enumerate(val):
+                            if v_ is p:
+                                val[i_] = new
+                par[id(new)] = pp
+                changed = True
+
+    def visit(block):
+        nonlocal changed
+        for st in block:
+            if isinstance(st, (ast.FunctionDef, ast.ClassDef)):
+                continue
+            for b in _blocks_of(st):
+                visit(b)
+        k = 0
+        while k < len(block):
+            st = block[k]
+            if isinstance(st, ast.For) and not st.orelse and isinstance(st.target, ast.Tuple) and isinstance(st.iter, ast.Call) \
+                    and isinstance(st.iter.func, ast.Name) and st.iter.func.id == 'zip' and not st.iter.keywords \
+                    and len(st.iter.args) == len(st.target.elts) and all(isinstance(e, ast.Name) for e in st.target.elts) \
+                    and all(isinstance(a, (ast.Tuple, ast.List)) and all(isinstance(e, ast.Name) for e in a.elts) for a in st.iter.args) \
+                    and len({len(a.elts) for a in st.iter.args}) == 1 and 1 <= len(st.iter.args[0].elts) <= 4:
+                vs = [e.id for e in st.target.elts]
+                body_ok = not any(isinstance(n, (ast.Break, ast.Continue, ast.FunctionDef, ast.Lambda, ast.ClassDef, ast.Return))
+                                  for b in st.body for n in ast.walk(b))
+                writes = any(isinstance(n, ast.Name) and n.id in vs and isinstance(n.ctx, ast.Store) for b in st.body for n in ast.walk(b))
+                used_after = any(isinstance(n, ast.Name) and n.id in vs for t in block[k + 1:] for n in ast.walk(t))
+                if body_ok and not writes and not used_after and len(set(vs)) == len(vs):
+                    out = []
+                    for pos in range(len(st.iter.args[0].elts)):
+                        m = {v: a.elts[pos].id for v, a in zip(vs, st.iter.args)}
+                        for b in st.body:
+                            nb = copy.deepcopy(b)
+
+                            class R(ast.NodeTransformer):
+                                def visit_Name(self, node):
+                                    if node.id in m:
+                                        return ast.copy_location(ast.Name(id=m[node.id], ctx=node.ctx), node)
+                                    return node
+                            out.append(R().visit(nb))
+                    block[k:k + 1] = out
+                    changed = True
+                    k += len(out)
+                    continue
+            k += 1
+    visit(fn.body)
+    # bundles nobody reads any more
+    for name, asg in bundles.items():
+        if not any(isinstance(n, ast.Name) and n.id == name and isinstance(n.ctx, ast.Load) for n in ast.walk(fn)):
+            def drop(block):
+                for i_, s_ in enumerate(block):
+                    if s_ is asg and len(block) > 1:
+                        del block[i_]
+                        return True
+                    if not isinstance(s_, (ast.FunctionDef, ast.ClassDef)):
+                        for b in _blocks_of(s_):
+                            if drop(b):
+                                return True
+                return False
+            if drop(fn.body):
+                changed = True
+    if changed:
+        ast.fix_missing_locations(fn)
+        _invalidate()
+    return changed
+
+
+def _unroll_loop_over_names(fn: ast.FunctionDef) -> bool:
+    """N42: `for v in (a, b):` over a literal tuple / list of at most four plain names, v only read in a straight-line
+    body (no break / continue / nested definitions), is the body once per name, in order."""
+    changed = False
+
+    def visit(block):
+        nonlocal changed
+        for st in block:
+            if isinstance(st, (ast.FunctionDef, ast.ClassDef)):
+                continue
+            for b in _blocks_of(st):
+                visit(b)
+        k = 0
+        while k < len(block):
+            st = block[k]
+            if isinstance(st, ast.For) and not st.orelse and isinstance(st.target, ast.Name) and isinstance(st.iter, (ast.Tuple, ast.List)) \
+                    and 1 <= len(st.iter.elts) <= 4 and all(isinstance(e, ast.Name) for e in st.iter.elts):
+                v = st.target.id
+                body_ok = not any(isinstance(n, (ast.Break, ast.Continue, ast.FunctionDef, ast.Lambda, ast.ClassDef, ast.Return))
+                                  for b in st.body for n in ast.walk(b))
+                writes_v = any(v in mutated_names(b, calls=False) and any(isinstance(n, ast.Name) and n.id == v and isinstance(n.ctx, ast.Store)
+                                                                         for n in ast.walk(b)) for b in st.body)
+                used_after = any(isinstance(n, ast.Name) and n.id == v for t in block[k + 1:] for n in ast.walk(t))
+                names = [e.id for e in st.iter.elts]
+                rebinds = any(isinstance(n, ast.Name) and n.id in names and isinstance(n.ctx, ast.Store) for b in st.body for n in ast.walk(b))
+                if body_ok and not writes_v and not used_after and not rebinds and v not in names:
+                    out = []
+                    for nm in names:
+                        for b in st.body:
+                            nb = copy.deepcopy(b)
+
+                            class R(ast.NodeTransformer):
+                                def visit_Name(self, node):
+                                    if node.id == v:
+                                        return ast.copy_location(ast.Name(id=nm, ctx=node.ctx), node)
+                                    return node
+                            out.append(R().visit(nb))
+                    block[k:k + 1] = out
+                    changed = True
+                    k += len(out)
+                    continue
+            k += 1
+    visit(fn.body)
+    if changed:
+        ast.fix_missing_locations(fn)
+        _invalidate()
+    return changed
+
+
 def _split_chained_assign(fn: ast.FunctionDef) -> bool:
     """`a = b = E` with E side-effect free and the targets plain names is `a = E; b = E`."""
     changed = False
@@ -3525,6 +3685,108 @@ def _coalesce_bound_copy(fn: ast.FunctionDef) -> bool:
         _invalidate()
         return True
     return False
+
+
+def _coalesce_else_copy(fn: ast.FunctionDef) -> bool:
+    """A name w introduced by inlining is defined in a block (also as a component of an unpacking), then
+    `if c: v = E else: v = w` follows in the same block - c and E may read w - and w occurs nowhere else; v does not occur
+    between the definition of w and the `if`: w is v (the helper's variable continues under the caller's name), the else
+    arm does nothing."""
+    def gen(name: str) -> bool:
+        return '__inl' in name or name.startswith('__r')
+
+    def find(block) -> bool:
+        for k, s_ in enumerate(block):
+            if isinstance(s_, ast.If) and len(s_.orelse) == 1 and len(s_.body) == 1 and isinstance(s_.orelse[0], ast.Assign) \
+                    and isinstance(s_.body[0], ast.Assign) and len(s_.orelse[0].targets) == 1 and len(s_.body[0].targets) == 1 \
+                    and isinstance(s_.orelse[0].targets[0], ast.Name) and isinstance(s_.body[0].targets[0], ast.Name) \
+                    and s_.orelse[0].targets[0].id == s_.body[0].targets[0].id and isinstance(s_.orelse[0].value, ast.Name) \
+                    and gen(s_.orelse[0].value.id):
+                v, w = s_.body[0].targets[0].id, s_.orelse[0].value.id
+                if gen(v) or v == w:
+                    continue
+                # the definition of w: a store in an earlier statement of this block
+                d = None
+                for q in range(k - 1, -1, -1):
+                    if any(isinstance(n, ast.Name) and n.id == w and isinstance(n.ctx, ast.Store) for n in ast.walk(block[q])):
+                        d = q
+                        break
+                if d is None or not isinstance(block[d], ast.Assign):
+                    continue
+                between = block[d:k]
+                if any(isinstance(n, ast.Name) and n.id == v for t in between for n in ast.walk(t)):
+                    continue
+                if any(isinstance(n, ast.Name) and n.id == v for n in ast.walk(s_.test)):
+                    continue
+                inside = {id(n) for t in block[d:k + 1] for n in ast.walk(t)}
+                if any(isinstance(n, ast.Name) and n.id == w and id(n) not in inside for n in ast.walk(fn)):
+                    continue
+                n_stores = sum(1 for t in block[d:k + 1] for n in ast.walk(t)
+                               if isinstance(n, ast.Name) and n.id == w and isinstance(n.ctx, ast.Store))
+                if n_stores != 1:
+                    continue
+                for t in block[d:k + 1]:
+                    for n in ast.walk(t):
+                        if isinstance(n, ast.Name) and n.id == w:
+                            n.id = v
+                s_.orelse = []
+                return True
+            if isinstance(s_, (ast.FunctionDef, ast.ClassDef)):
+                continue
+            for b in _blocks_of(s_):
+                if find(b):
+                    return True
+        return False
+    ch = False
+    while find(fn.body):
+        ch = True
+    if ch:
+        ast.fix_missing_locations(fn)
+        _invalidate()
+    return ch
+
+
+def _coalesce_default_select(fn: ast.FunctionDef) -> bool:
+    """`if c: g = A else: g = v` (g a name introduced by inlining, v a plain local / parameter that c may read) where v is not
+    read anywhere behind the `if` and the `if` is not inside a loop: g is v from here on - `if c: v = A` (the helper that
+    supplies a default for `None` written in place)."""
+    def gen(name: str) -> bool:
+        return '__inl' in name or name.startswith('__r')
+
+    def find(block, after_nodes, in_loop) -> bool:
+        for k, s_ in enumerate(block):
+            later = after_nodes | {id(n) for t in block[k + 1:] for n in ast.walk(t)}
+            if not in_loop and isinstance(s_, ast.If) and len(s_.orelse) == 1 and len(s_.body) == 1 \
+                    and isinstance(s_.orelse[0], ast.Assign) and isinstance(s_.body[0], ast.Assign) \
+                    and len(s_.orelse[0].targets) == 1 and len(s_.body[0].targets) == 1 \
+                    and isinstance(s_.orelse[0].targets[0], ast.Name) and isinstance(s_.body[0].targets[0], ast.Name) \
+                    and s_.orelse[0].targets[0].id == s_.body[0].targets[0].id and gen(s_.body[0].targets[0].id) \
+                    and isinstance(s_.orelse[0].value, ast.Name) and not gen(s_.orelse[0].value.id):
+                g, v = s_.body[0].targets[0].id, s_.orelse[0].value.id
+                v_later = any(isinstance(n, ast.Name) and n.id == v and id(n) in later for n in ast.walk(fn))
+                g_elsewhere = any(isinstance(n, ast.Name) and n.id == g and id(n) not in later and not any(n is m for m in ast.walk(s_))
+                                  for n in ast.walk(fn))
+                v_in_A = v in _names_loaded(s_.body[0].value)
+                if not v_later and not g_elsewhere and not v_in_A:
+                    for n in ast.walk(fn):
+                        if isinstance(n, ast.Name) and n.id == g:
+                            n.id = v
+                    s_.orelse = []
+                    return True
+            if isinstance(s_, (ast.FunctionDef, ast.ClassDef)):
+                continue
+            loop = in_loop or isinstance(s_, (ast.For, ast.While))
+            for b in _blocks_of(s_):
+                if find(b, later, loop):
+                    return True
+        return False
+    ch = False
+    while find(fn.body, set(), False):
+        ch = True
+    if ch:
+        ast.fix_missing_locations(fn)
+        _invalidate()
+    return ch
 
 
 def _coalesce_select(fn: ast.FunctionDef) -> bool:
@@ -4309,9 +4571,34 @@ class _HelperInliner:
 
     def _instantiate(self, helper: ast.FunctionDef, call: ast.Call, target: Optional[str], tag: str):
         a = helper.args
-        if a.vararg or a.kwarg or a.posonlyargs or a.kwonlyargs:
+        if a.vararg or a.posonlyargs or a.kwonlyargs:
             return None
-        if any(isinstance(x, ast.Starred) for x in call.args) or any(k.arg is None for k in call.keywords):
+        kw_alias = None
+        if a.kwarg:
+            # `def h(x, **kw)` called as `h(x, **K)` with K a plain name, kw only read (splatted on, .get, [..] loads, `in`):
+            # kw is another name for a copy of K that nothing distinguishes from K
+            splats = [k for k in call.keywords if k.arg is None]
+            if len(splats) != 1 or len(call.keywords) != 1 or not isinstance(splats[0].value, ast.Name):
+                return None
+            kwn = a.kwarg.arg
+            for n in ast.walk(helper):
+                if isinstance(n, ast.Name) and n.id == kwn and not isinstance(n.ctx, ast.Load):
+                    return None
+                if isinstance(n, ast.Subscript) and isinstance(n.value, ast.Name) and n.value.id == kwn and not isinstance(n.ctx, ast.Load):
+                    return None
+                if isinstance(n, ast.Call) and isinstance(n.func, ast.Attribute) and isinstance(n.func.value, ast.Name) \
+                        and n.func.value.id == kwn and n.func.attr not in ('get', 'keys', 'items', 'values', 'copy'):
+                    return None
+                if isinstance(n, ast.Call) and not (isinstance(n.func, ast.Attribute) and isinstance(n.func.value, ast.Name)
+                                                    and n.func.value.id == kwn):
+                    # handed on as a positional argument (the callee might change it): only the splat form is accepted
+                    if any(isinstance(x, ast.Name) and x.id == kwn for x in n.args) \
+                            or any(k.arg is not None and isinstance(k.value, ast.Name) and k.value.id == kwn for k in n.keywords):
+                        return None
+            kw_alias = (kwn, splats[0].value)
+        elif any(k.arg is None for k in call.keywords):
+            return None
+        if any(isinstance(x, ast.Starred) for x in call.args):
             return None
         params = [p.arg for p in a.args]
         bound: Dict[str, ast.expr] = {}
@@ -4323,10 +4610,15 @@ class _HelperInliner:
         for p, x in zip(params, call_args):
             bound[p] = x
         for k in call.keywords:
+            if k.arg is None and kw_alias is not None:
+                continue
             if k.arg not in params or k.arg in bound:
                 return None
             bound[k.arg] = k.value
-        defaults = dict(zip(params[len(params) - len(a.defaults):], a.defaults))
+        if kw_alias is not None:
+            params = params + [kw_alias[0]]
+            bound[kw_alias[0]] = kw_alias[1]
+        defaults = dict(zip([p.arg for p in a.args][len(a.args) - len(a.defaults):], a.defaults))
         for p in params:
             if p not in bound:
                 if p not in defaults:
@@ -4542,7 +4834,7 @@ def normalize_function(fn: ast.FunctionDef, module_helpers: Dict[str, ast.Functi
         if f.id in module_helpers and f.id not in fn_locals and module_helpers[f.id] is not fn:
             h = module_helpers[f.id]
             # the helper's free names must not be captured by the caller's locals
-            h_locals = {a.arg for a in h.args.args} | mutated_names(h, calls=False) | _comp_targets(h)
+            h_locals = _fn_params(h) | mutated_names(h, calls=False) | _comp_targets(h)
             free = {n.id for n in ast.walk(h) if isinstance(n, ast.Name)} - h_locals
             if free & fn_locals:
                 return None
@@ -4621,6 +4913,8 @@ def normalize_function(fn: ast.FunctionDef, module_helpers: Dict[str, ast.Functi
             _LenTests().visit(st)
             _SortMinMaxArgs().visit(st)
         _invalidate()
+        _dissolve_name_bundles(fn)
+        _unroll_loop_over_names(fn)
         _split_chained_assign(fn)
         _merge_nested_ifs(fn)
         _drop_self_assign(fn)
@@ -4654,7 +4948,7 @@ def normalize_function(fn: ast.FunctionDef, module_helpers: Dict[str, ast.Functi
                 ch = True
             ch = _inline_temps(fn, True) or ch
             ch = _forward_across_increments(fn) or ch
-            while _coalesce_copies(fn) or _coalesce_generated(fn) or _coalesce_select(fn) or _coalesce_bound_copy(fn):
+            while _coalesce_copies(fn) or _coalesce_generated(fn) or _coalesce_select(fn) or _coalesce_bound_copy(fn) or _coalesce_else_copy(fn) or _coalesce_default_select(fn):
                 ch = True
             ch = _reuse_values(fn) or ch
             ch = _sink_defs_into_branches(fn) or ch
